@@ -32,8 +32,8 @@ def items(tier, seed):
     # both sides of the 17/18-neutral switch of the documented search (lengths beyond NMAX; value and composition-only claims)
     seen = {it["name"] for it in out}
     for n0 in (17, 18, 19):
-        for a in range(0, 3 if tier == "quick" else 5):
-            for b in range(0, 9 if tier == "quick" else 11):
+        for a in (range(1, 3) if tier == "quick" else range(0, 5)):
+            for b in (range(1, 8) if tier == "quick" else range(0, 11)):
                 for (x, y) in ((a, b), (b, a)):
                     N = n0 + x + y
                     nm = "N%d_p%d_n%d" % (N, x, y)
